@@ -9,6 +9,7 @@ Cls.from_data, Cls(**kw) and - for the typed result - into_data.
 
 from __future__ import annotations
 
+import collections
 import copy
 import typing as t
 
@@ -62,6 +63,8 @@ def spyify(v: t.Any) -> t.Any:
         return codec.MySeq(spyify(x) for x in v)
     if isinstance(v, codec.MyMap):
         return codec.MyMap((k, spyify(x)) for (k, x) in v.items())
+    if isinstance(v, collections.defaultdict):
+        return collections.defaultdict(v.default_factory, ((k, spyify(x)) for (k, x) in v.items()))
     return v
 
 
@@ -133,10 +136,16 @@ def check(case: t.Any, ctx: Ctx) -> None:
                 return
 
 
+def _tagged() -> t.Any:
+    from .c12 import tagged_cases
+    return tagged_cases()
+
+
 def suites(tier: str) -> t.List[Suite]:
     big = tier == 'thorough'
     leaves = 8 if big else 4
     return [
         Suite('nomutate', check, strategy=lambda: gen.conv_cases(gen.all_type_specs(leaves)), examples=8000 if big else 600,
               budget_s=480 if big else 40, render=gen.render_case),
+        Suite('tagged', check, strategy=_tagged, examples=3000 if big else 250, budget_s=240 if big else 25, render=gen.render_case),
     ]
